@@ -6,6 +6,8 @@ From Inferno Require C04.Synapse C03.Neuron.
 Import ListNotations.
 Theorem neuron_resume_reachable : forall (NM : Num) (c : Neuron.cls) (p : Neuron.params NM) (n b : nat)
     (pre prior post : list (Neuron.op NM)),
+  Forall (nrn_op_ok NM c) pre ->
+  Forall (nrn_op_ok NM c) prior ->
   let s := fst (run (nrn_step NM c p) (Neuron.init NM c p n b) pre) in
   let t := fst (run (nrn_step NM c p) (Neuron.init NM c p n b) prior) in
   Neuron.training NM t = Neuron.training NM s ->
